@@ -149,6 +149,25 @@ pub fn main_sched(args: &[String]) -> i32 {
     }
     install_quiet_panic_hook();
     let mut inputs = float_inputs(seed ^ 0x5EED, count, nmax, &[1, 2, 3, 3]);
+    // exact lattices (every generator has several exactly equidistant neighbours) of sizes 9 .. 125 in reflective boxes whose
+    // width is a power of two (exact snapping): whatever decides the order of equidistant candidates must not depend on the
+    // number of worker threads, the size of the input relative to it, or the schedule
+    for (j, (dim, m)) in [(1usize, 9usize), (1, 17), (2, 4), (2, 5), (3, 3), (3, 4), (2, 7), (3, 5)].iter().enumerate() {
+        if j >= 6 && count < 20 {
+            break;
+        }
+        let w = if *m <= 8 { 8.0 } else { 32.0 };
+        let mm = [*m, if *dim >= 2 { *m } else { 1 }, if *dim >= 3 { *m } else { 1 }];
+        let mut gens = vec![];
+        for a in 0..mm[0] {
+            for b in 0..mm[1] {
+                for c in 0..mm[2] {
+                    gens.push(DVec3::new(a as f64 + 0.5, if *dim >= 2 { b as f64 + 0.5 } else { 0.0 }, if *dim >= 3 { c as f64 + 0.5 } else { 0.0 }));
+                }
+            }
+        }
+        inputs.push(FInput { id: inputs.len(), kind: "ties".into(), gens, anchor: DVec3::ZERO, width: DVec3::splat(w), dim: *dim, per: false });
+    }
     if big {
         // one large input: thresholds on the number of faces / cells must not change the result either
         let mut rng = StdRng::seed_from_u64(seed ^ 0xB16);
